@@ -236,6 +236,13 @@ def register(reg):
 
 
     _more(reg)
+    # bracket reads: track[name, i] and track[i]
+    reg.add(Spec(T + "__getitem__", dict(self="Track", n="tuple[str,int]"), "float",
+                 requires=["twf(self)", "0 <= n[1] and n[1] < npts(self)", "not reserved(n[0]) and hasname(self, n[0])"],
+                 ensures=[("feature-value", "same(result, col(self, n[0], n[1]))")]), variant="name_index")
+    reg.add(Spec(T + "__getitem__", dict(self="Track", n="int"), "Obs",
+                 requires=["0 <= n and n < npts(self)"],
+                 ensures=[("the-observation", "result is obs(self, n)")]), variant="index")
 
 
 def _more(reg):
@@ -358,4 +365,4 @@ def _more(reg):
 FUNCTIONS = [T + n for n in ("getObsAnalyticalFeature", "getListAnalyticalFeatures", "setObsAnalyticalFeature",
                              "createAnalyticalFeature", "createAnalyticalFeature@list",
                              "updateAnalyticalFeature", "updateAnalyticalFeature@list", "removeAnalyticalFeature",
-                             "getAnalyticalFeature")] + ["tracklib.core.utils:addListToAF"]
+                             "getAnalyticalFeature", "__getitem__@name_index", "__getitem__@index")] + ["tracklib.core.utils:addListToAF"]
